@@ -1045,7 +1045,12 @@ func (cs *State) needProofBlock(height int64) bool {
 
 	lastBlockMeta := cs.blockStore.LoadBlockMeta(height - 1)
 	if lastBlockMeta == nil {
-		panic(fmt.Sprintf("needProofBlock: last block meta for height %d not found", height-1))
+		// A node that was bootstrapped by state sync has the state of height-1 but not
+		// its block. Whether that block changed the app hash is unknown then: propose
+		// right away, which is what is done whenever a proof block may be needed.
+		cs.Logger.Info("needProofBlock: last block meta not found, proposing without waiting for txs",
+			"height", height-1, "initial_height", cs.state.InitialHeight)
+		return true
 	}
 
 	return !bytes.Equal(cs.state.AppHash, lastBlockMeta.Header.AppHash)
